@@ -40,9 +40,9 @@ def render(prog, name, case, nostd=False):
         probes = [("implC", "::entrait::Impl<Conc>", N), ("implOther", "::entrait::Impl<()>", N)]
     elif prog in ("trait-self", "trait-self-async"):
         a = "async " if prog.endswith("async") else ""
-        items = (f"#[::entrait::entrait]\npub trait {N} {{ {a}fn m(&self, a: i32) -> i32; }}\npub struct App;\n"
-                 f"impl {N} for App {{ {a}fn m(&self, a: i32) -> i32 {{ a + 3 }} }}\n")
-        call = f"<::entrait::Impl<App> as {N}>::m(&app, 1)"
+        items = (f"#[::entrait::entrait]\npub trait {N} {{ {a}fn m(&self, target: i32, this: i32) -> i32; }}\npub struct App;\n"
+                 f"impl {N} for App {{ {a}fn m(&self, target: i32, this: i32) -> i32 {{ target + 3 + this * 0 }} }}\n")
+        call = f"<::entrait::Impl<App> as {N}>::m(&app, 1, 50)"
         if a:
             call = f"::vt::block_on({call})"
         run = f"let app = ::entrait::Impl::new(App); let r = ::std::format!(\"{{}}\", {call});"
@@ -51,10 +51,10 @@ def render(prog, name, case, nostd=False):
         sel = "ref" if prog == "trait-ref" else "Borrow"
         tr = "::core::convert::AsRef" if prog == "trait-ref" else "::core::borrow::Borrow"
         meth = "as_ref" if prog == "trait-ref" else "borrow"
-        items = (f"#[::entrait::entrait(delegate_by = {sel})]\npub trait {N}: 'static {{ fn m(&self, a: i32) -> i32; }}\npub struct Inner;\n"
-                 f"impl {N} for Inner {{ fn m(&self, a: i32) -> i32 {{ a + 4 }} }}\npub struct App(pub Inner);\n"
+        items = (f"#[::entrait::entrait(delegate_by = {sel})]\npub trait {N}: 'static {{ fn m(&self, target: i32, this: i32) -> i32; }}\npub struct Inner;\n"
+                 f"impl {N} for Inner {{ fn m(&self, target: i32, this: i32) -> i32 {{ target + 4 + this * 0 }} }}\npub struct App(pub Inner);\n"
                  f"impl {tr}<dyn {N}> for App {{ fn {meth}(&self) -> &(dyn {N} + 'static) {{ &self.0 }} }}\n")
-        run = f"let app = ::entrait::Impl::new(App(Inner)); let r = ::std::format!(\"{{}}\", <::entrait::Impl<App> as {N}>::m(&app, 1));"
+        run = f"let app = ::entrait::Impl::new(App(Inner)); let r = ::std::format!(\"{{}}\", <::entrait::Impl<App> as {N}>::m(&app, 1, 50));"
         probes = [("impl", "::entrait::Impl<App>", N), ("implOther", "::entrait::Impl<()>", N)]
     elif prog in ("di-static", "di-dyn-at"):
         dyn = prog == "di-dyn-at"
@@ -64,9 +64,9 @@ def render(prog, name, case, nostd=False):
         ea = "#[::entrait::entrait(ref)]" if dyn else "#[::entrait::entrait]"
         glue = ("impl ::core::convert::AsRef<dyn NImpl<Self> + ::core::marker::Sync> for App { fn as_ref(&self) -> &(dyn NImpl<Self> + ::core::marker::Sync + 'static) { &X } }"
                 if dyn else "impl DelegateN<Self> for App { type Target = X; }")
-        items = (f"#[::entrait::entrait({attr})]\n{at}pub trait {N} {{ {a}fn m(&self, a: i32) -> i32; }}\npub struct X;\n{ea}\n{at}"
-                 f"impl NImpl for X {{ pub {a}fn m<D: ::core::marker::Sync>(deps: &D, a: i32) -> i32 {{ a + 5 }} }}\npub struct App;\n{glue}\n")
-        call = f"<::entrait::Impl<App> as {N}>::m(&app, 1)"
+        items = (f"#[::entrait::entrait({attr})]\n{at}pub trait {N} {{ {a}fn m(&self, target: i32, this: i32) -> i32; }}\npub struct X;\n{ea}\n{at}"
+                 f"impl NImpl for X {{ pub {a}fn m<D: ::core::marker::Sync>(deps: &D, target: i32, this: i32) -> i32 {{ target + 5 + this * 0 }} }}\npub struct App;\n{glue}\n")
+        call = f"<::entrait::Impl<App> as {N}>::m(&app, 1, 50)"
         if dyn:
             call = f"::vt::block_on({call})"
         run = f"let app = ::entrait::Impl::new(App); let r = ::std::format!(\"{{}}\", {call});"
@@ -86,10 +86,10 @@ def render(prog, name, case, nostd=False):
         sel = "ref" if prog == "di-dyn" else "Borrow"
         tr = "::core::convert::AsRef" if prog == "di-dyn" else "::core::borrow::Borrow"
         meth = "as_ref" if prog == "di-dyn" else "borrow"
-        items = (f"#[::entrait::entrait(NImpl, delegate_by = {sel})]\npub trait {N} {{ fn m(&self, a: i32) -> i32; }}\npub struct X;\n"
-                 f"#[::entrait::entrait(ref)]\nimpl NImpl for X {{ pub fn m<D>(deps: &D, a: i32) -> i32 {{ a + 6 }} }}\npub struct App;\n"
+        items = (f"#[::entrait::entrait(NImpl, delegate_by = {sel})]\npub trait {N} {{ fn m(&self, target: i32, this: i32) -> i32; }}\npub struct X;\n"
+                 f"#[::entrait::entrait(ref)]\nimpl NImpl for X {{ pub fn m<D>(deps: &D, target: i32, this: i32) -> i32 {{ target + 6 + this * 0 }} }}\npub struct App;\n"
                  f"impl {tr}<dyn NImpl<Self>> for App {{ fn {meth}(&self) -> &(dyn NImpl<Self> + 'static) {{ &X }} }}\n")
-        run = f"let app = ::entrait::Impl::new(App); let r = ::std::format!(\"{{}}\", <::entrait::Impl<App> as {N}>::m(&app, 1));"
+        run = f"let app = ::entrait::Impl::new(App); let r = ::std::format!(\"{{}}\", <::entrait::Impl<App> as {N}>::m(&app, 1, 50));"
         probes = [("impl", "::entrait::Impl<App>", N), ("implOther", "::entrait::Impl<()>", N)]
     else:
         raise ValueError(prog)
